@@ -7,3 +7,7 @@ import GoImap.Props.C13
 #print axioms GoImap.C13.guarded_fields
 #print axioms GoImap.C13.f21_lockset_counterexample
 #print axioms GoImap.C13.f26_enabled_lockset_counterexample
+#print axioms GoImap.C13.no_completion_lost
+#print axioms GoImap.C13.complete_exactly_once
+#print axioms GoImap.C13.f26_reorder_only_counterexample
+#print axioms GoImap.C13.f26_repaired_on_that_schedule
